@@ -159,7 +159,8 @@ def gen_records(rng):
             votes = copy.deepcopy(templates[tmpl])
         tp = pools_for[i] if rng.random() < 0.6 else None
         if i in conflict_ids and rng.random() < 0.5:
-            tp = rng.choice(("p1", "p2", "p3", 0, ""))
+            # (also labels of another type that print like the card's own: batch 1 vs "1" are different batches)
+            tp = rng.choice(("p1", "p2", "p3", 0, "", "0", "1", "1000", 1.0, False))
         recs.append({"id": i, "votes": votes, "phantom": rng.random() < 0.4, "pool": rng.random() < 0.35, "tally_pool": tp}
                     | ({"_tmpl": tmpl} if tmpl is not None else {}))
     return recs
